@@ -22,7 +22,8 @@ txt = f'''
 Each change compiles, keeps the 3542 tests green, and comes with a demonstration that fails with it and
 passes without it (confirmed with `tools/seedeval.sh`). Batches 1-4 were written against the property text alone;
 batches 5-15 ("hard mode") were additionally told what a property-based harness of this kind generates and asked for a
-change it would plausibly miss - the description grew with every batch. `tools/selftest.sh` re-applies every patch
+change it would plausibly miss - the description grew with every batch; batch 16 (C10g, C14h) went back to the
+property text alone and was run against the checks as frozen at the end of batch 15 - both caught as built. `tools/selftest.sh` re-applies every patch
 in a scratch worktree and runs the quick check of the targeted property and of the properties listed under
 `also_check` (`detection.json`). {len(rows)} changes so far; {missed} were missed and {thin} were caught only thinly or
 seed-dependently by the checks as they stood when the change arrived; after the strengthening recorded in the history
